@@ -52,6 +52,11 @@ def run(tier):
     cov, covstats = stream.cover_histories(pairs=False)
     covcc, _ = stream.cover_histories(pairs=False, cfg="Cover_Stream_cc")
     cov = cov + covcc * 3      # combined diffs are few: weigh them up in the sample
+    # plain diff -u / diff -ru streams (no "diff --git" line between files), submodule and mode+binary sections
+    for cfg, mod in (("Cover_DiffU_bare", "Cover_DiffU"), ("Cover_DiffU_titled", "Cover_DiffU"), ("Cover_Stream_sub", "Cover_Stream"),
+                     ("Cover_Stream_mode", "Cover_Stream")):
+        extra, _ = stream.cover_histories(pairs=False, cfg=cfg, module=mod)
+        cov = cov + extra * (6 if mod == "Cover_DiffU" else 1)
     # git never hands over a hunk header without lines: inputs end in a complete hunk
     cov = [h for h in cov if len(h) >= 2 and h[-1]["c"] != "hh"]
     nh = 400 if tier == "quick" else 4000
